@@ -40,7 +40,7 @@ CHECKS = {
          "DESIGN.md section 4, C13"),
  "C14": ("three-way differential (checked-in generated parser / grammar file through the current optimizer + VM / parser derived at harness build time) on mutated real grammars, spelled generated grammars, token soup and fragments x every meta-grammar rule",
          "Exploration: ~120k (text, start rule) cases (quick); token streams or error position + rule-name sets must be pairwise identical between the three engines.",
-         "The rule-name table in harness/pv/src/c14.rs must list the meta-grammar's rules (checked at run time against grammar.pest; a mismatch is reported). A change that needs regenerating grammar.rs shows up as a disagreement, which is the point.",
+         "The rule-name table in harness/pv/src/c14.rs must list the meta-grammar's rules (checked at run time against grammar.pest; a mismatch is reported). A change that needs regenerating grammar.rs shows up as a disagreement, which is the point. Thorough adds a libFuzzer campaign (fuzz/fuzz_targets/meta_diff.rs, 320k executions, same three-way oracle in-target).",
          "DESIGN.md section 4, C14"),
  "C15": ("metamorphic comparison of the same generated parse with error detail off and on, plus validity/renderability predicates on the recorded attempts",
          "Exploration: ~200k generated grammars (quick) x rules x inputs, ~2.5M parse pairs; outcome equality (tokens or error position/line-col/rule sets), no panic with detail on, max_position on a char boundary in range, help message renders.",
@@ -55,8 +55,8 @@ CHECKS = {
          "Trusts the trace hook to record rule() invocations faithfully (it is additive and off by default). VM back-end; C02 ties the generated back-end's errors to the VM's.",
          "DESIGN.md section 4, C08"),
  "C09": ("totality fuzzing of the grammar front-end with token-level mutations of real and generated grammars, truncations and token soup; oracle = returns + located renderable errors",
-         "Exploration: ~1M texts (quick) from four sources; every call is wrapped in catch_unwind in a worker process whose death is attributed to the journaled in-flight text; error locations are checked against the text and rendered.",
-         "Inputs bounded as stated (4 KiB, nesting 200, repetition-count product 4096). libFuzzer campaigns are not part of the registered commands.",
+         "Exploration: ~0.7M texts (quick) from five sources; every call is wrapped in catch_unwind in a worker process whose death is attributed to the journaled in-flight text; error locations are checked against the text and rendered.",
+         "Inputs bounded as stated (4 KiB, nesting 200, repetition-count product 4096, unrolled size 256 KiB). 'Bounded time' is read as a linear budget of combinator calls for the meta parser (200/byte, enforced through pest's call limit); validation/optimisation time is covered by the size bounds and a watchdog (inconclusive, exit 2). Thorough adds a libFuzzer campaign (fuzz/fuzz_targets/meta_total.rs, 2M executions, same oracle in-target).",
          "DESIGN.md section 4, C09"),
  "C10": ("exhaustive small-scope enumeration of strings x offsets x offset pairs + proptest strings, against direct definitions of line/column/line containment",
          "Exploration: all strings of <= 6 symbols (quick) / 8 (thorough) over {a, LF, CR, TAB, e-acute, emoji} with every offset and offset pair, plus random long strings; Position/Span/Pair/Error line-column results and the rendered error text are compared with the definitions. Bounded-exhaustive plus sampled.",
@@ -76,7 +76,7 @@ CHECKS = {
          "DESIGN.md section 4, C17"),
  "C18": ("differential against a hand-written RFC 8259 recogniser over ABNF-generated documents, their one-edit neighbours, token soup and a near-miss catalogue",
          "Exploration: 150k generated valid documents + 450k one-edit neighbours + 75k token-soup strings (quick); accept/reject must agree and accepted token trees must mirror the recogniser's value tree with exact spans.",
-         "Trusts the ~150-line recogniser in harness/pv/src/c18.rs as the reading of the RFC; invalid UTF-8 cannot be expressed as &str and is out of scope.",
+         "Trusts the ~150-line recogniser in harness/pv/src/c18.rs as the reading of the RFC; invalid UTF-8 cannot be expressed as &str and is out of scope. Thorough adds a libFuzzer campaign (fuzz/fuzz_targets/json_rfc.rs, 16M executions, same oracle in-target).",
          "DESIGN.md section 4, C18"),
 }
 NA_REASON = "check not built yet (work in progress; see DESIGN.md section 9 build order)"
